@@ -434,14 +434,17 @@ static void convert_pp_number(Token *tok) {
   long double val = strtold(tok->loc, &end);
 
   Type *ty;
+  // Round only once, directly to the type of the constant.
   if (*end == 'f' || *end == 'F') {
     ty = ty_float;
+    val = strtof(tok->loc, NULL);
     end++;
   } else if (*end == 'l' || *end == 'L') {
     ty = ty_ldouble;
     end++;
   } else {
     ty = ty_double;
+    val = strtod(tok->loc, NULL);
   }
 
   if (tok->loc + tok->len != end)
